@@ -93,6 +93,9 @@ def _param_table():
         add('burst_method=%r' % v, lambda v=v: compute_features(sig, fs, fr, burst_method=v, threshold_kwargs={}), ex)
     for v, ex in (('peak', 'ok'), ('trough', 'ok'), (None, 'ok'), ('bogus', 'ValueError'), (0, 'ValueError')):
         add('first_extrema=%r' % v, lambda v=v: find_extrema(sig, fs, fr, first_extrema=v), ex)
+    # (an unknown value is refused also when nothing is left to align: a boundary that removes every extremum)
+    for bd in (0, 40, len(sig) // 2, len(sig)):
+        add('first_extrema=bogus boundary=%d' % bd, lambda bd=bd: find_extrema(sig, fs, fr, first_extrema='bogus', boundary=bd), 'ValueError')
     add('first_extrema through compute_features', lambda: compute_features(sig, fs, fr, find_extrema_kwargs={'first_extrema': 'trough'}, threshold_kwargs={}), 'ValueError')
     for v, ex in (('both', 'ok'), ('next', 'ok'), ('last', 'ok'), ('bogus', 'ValueError'), (None, 'ValueError')):
         add('amp_consistency direction=%r' % v, lambda v=v: compute_amp_consistency(df, direction=v), ex)
@@ -102,7 +105,8 @@ def _param_table():
         add('2d axis=%r' % (v,), lambda v=v: compute_features_2d(s2, fs, fr, {'threshold_kwargs': {}}, axis=v, n_jobs=1), ex)
     for v, ex in ((0, 'ok'), (1, 'ok'), ((0, 1), 'ok'), (None, 'ValueError'), (2, 'ValueError'), ('x', 'ValueError')):
         add('3d axis=%r' % (v,), lambda v=v: compute_features_3d(s3, fs, fr, {'threshold_kwargs': {}}, axis=v, n_jobs=1), ex)
-    for v, ex in ((None, 'ok'), ('tqdm', 'ok'), ('bogus', 'ValueError'), (1, 'ValueError')):
+    for v, ex in ((None, 'ok'), ('tqdm', 'ok'), ('bogus', 'ValueError'), (1, 'ValueError'), ('tqdm.bogus', 'ValueError'), ('tqdm.', 'ValueError'), ('tqdm2', 'ValueError'),
+                  ('TQDM', 'ValueError'), ('', 'ValueError'), ('tqdm.notebook.x', 'ValueError')):
         add('progress=%r' % v, lambda v=v: compute_features_2d(s2, fs, fr, {'threshold_kwargs': {}}, n_jobs=1, progress=v), ex)
     add('Bycycle.fit 1-D', lambda: Bycycle(thresholds={}).fit(sig, fs, fr), 'ok')
     add('Bycycle.fit 2-D', lambda: Bycycle(thresholds={}).fit(s2, fs, fr), 'ValueError')
@@ -112,6 +116,18 @@ def _param_table():
     add('BycycleGroup.fit 1-D', lambda: BycycleGroup(thresholds={}).fit(sig, fs, fr, n_jobs=1), 'ValueError')
     add('BycycleGroup.fit 4-D', lambda: BycycleGroup(thresholds={}).fit(np.zeros((1, 1, 2, 50)), fs, fr, n_jobs=1), 'ValueError')
     add('Bycycle.plot before fit', lambda: Bycycle(thresholds={}).plot(), 'ValueError')
+    def _plot_after_rejected_fit(**bad):
+        # a fit that is rejected half-way (sig / fs are already stored) leaves the object unfitted: plot still refuses with ValueError
+        bm = Bycycle(**dict(dict(thresholds={}), **bad))
+        try:
+            bm.fit(sig, fs, fr)
+        except ValueError:
+            pass
+        bm.plot()
+    add('Bycycle.plot after a fit rejected for center_extrema', lambda: _plot_after_rejected_fit(center_extrema='bogus'), 'ValueError')
+    add('Bycycle.plot after a fit rejected for burst_method', lambda: _plot_after_rejected_fit(burst_method='bogus'), 'ValueError')
+    add('Bycycle.plot after a fit rejected for a threshold', lambda: _plot_after_rejected_fit(thresholds={'monotonicity_threshold': 1.5}), 'ValueError')
+    add('Bycycle.plot after a fit rejected for min_n_cycles', lambda: _plot_after_rejected_fit(thresholds={'min_n_cycles': -1}), 'ValueError')
     for (a, b), ex in (((0.2, 1.0), 'ok'), ((None, 1.0), 'ok'), ((0.2, None), 'ok'), ((1.0, 0.2), 'ValueError'), ((-0.1, 1.0), 'ValueError')):
         add('limit_df start=%r stop=%r' % (a, b), lambda a=a, b=b: limit_df(df, fs, start=a, stop=b), ex)
         add('limit_signal start=%r stop=%r' % (a, b), lambda a=a, b=b: limit_signal(np.arange(len(sig)) / fs, sig, start=a, stop=b), ex)
